@@ -361,8 +361,13 @@ def make_writer(cfg, chdir, uuid="verif-12345678-90ab-cdef-1234-567890abcdef-ses
         start = np.uint64(start)          # indices are often numpy scalars in callers' code (exact for any uint64)
     elif _DT[0] % 3 == 2 and start < 2 ** 63:
         start = np.int64(start)
+    # the flags are documented as bool; what callers pass is whatever is true or false in their code (a count, a numpy
+    # scalar read from a configuration): every truthy value means True
+    kf = _DT[0] % 5
+    cont = cfg.cont if kf < 2 else ((2, np.int64(5), -1)[kf - 2] if cfg.cont else (0, np.int64(0), 0.0)[kf - 2])
+    cplx = cfg.is_complex if kf != 3 else (np.int64(3) if cfg.is_complex else 0)
     return digital_rf.DigitalRFWriter(path if path is not None else common.path_form(chdir), dt, cfg.sc, cfg.fc, start, cfg.n, cfg.d, uuid,
-                                      cfg.comp, cfg.cksum, cfg.is_complex, cfg.nsub, cfg.cont, False)
+                                      cfg.comp, cfg.cksum, cplx, cfg.nsub, cont, False)
 
 
 def index_form(vals, which):
